@@ -101,6 +101,32 @@ check("C24",
       "DESIGN.md 6 C24",
       technique="bounded symbolic execution of the repo's expression classes (symx nodes) + symbolic-array graph execution + z3 SMT (QF_UFLIA)")
 
+check("C25",
+      "Solver-decided for 1-D/2-D sources with symbolic chunk sizes, targets of symbolic length and regions with symbolic "
+      "bounds (None-patterns enumerated, steps 1..2/3), one or two source/target pairs, compute on/off, return_stored on/off: "
+      "the real store() orchestration and load_store_chunk/load_chunk (with the real fuse_slice and dask's ArraySliceDep) are "
+      "executed symbolically; after all block writes the target's element function equals, at a skolem position, 'source "
+      "element at the position's rank inside the region, else the original content'; every block is written exactly once with "
+      "a selection of exactly its shape; read-back blocks equal the source blocks. load_store_chunk additionally with "
+      "arbitrary unit-step indices inside stepped regions.",
+      "Trusted: z3, symx shims, the mutable symbolic-array model of a target (functional update per write). Stubs: map_blocks "
+      "-> block-by-block executor, persist/compute -> identity, Array -> symbolic source class. Outside: locks, delayed "
+      "targets, schedulers, npy-stack file I/O, negative region steps.",
+      "DESIGN.md 6 C25",
+      technique="bounded symbolic execution of the repo's store functions (symx) + symbolic-array target model + z3 SMT")
+
+check("C27",
+      "Solver-decided, at the level the property is stated: moved_fraction in [0,1], 0 for identical layouts and pure splits "
+      "(<=3/4 blocks per side, unbounded sizes, zero-width blocks); _rechunk_stage_transfer and the transfer_bytes property "
+      "of every class that overrides it with arithmetic (default ArrayExpr formula, Blockwise, Rechunk/TasksRechunk/"
+      "P2PRechunk as produced by the real Rechunk._lower, SliceSlicesIntegers, OverlapInternal, PartialReduce, CumReduction, "
+      "CumReductionBlelloch, Shuffle with symbolic index values, Stack) satisfy 0 <= min <= max on symbolic nodes with "
+      "symbolic chunk sizes; same-chunk rechunks and alias nodes give (0,0); NaN sizes give (nan,nan).",
+      "Trusted: z3 (QF_LIRA; QF_NIA/NRA for two-axis products with sizes <= 3..6), symx shims, exact-rational float model. "
+      "Outside: sums over whole optimized trees, sliding/moving-window estimates (C19 units), sizes beyond the two-axis bound.",
+      "DESIGN.md 6 C27",
+      technique="bounded symbolic execution of the repo's transfer_bytes properties on symbolic nodes (symx) + z3 SMT")
+
 ALL = [f"C{i:02d}" for i in range(1, 30)]
 
 
@@ -120,7 +146,7 @@ def main():
                       kind_free_text="proxy-based symbolic executor for Python function objects over z3 (path enumeration by re-execution, solver-decided obligations, concrete replay)")],
         checks=[CHECKS[k] for k in sorted(CHECKS)],
         notes="All checks: ./check <ID> [--tier quick|thorough]; exit 0 pass, 1 VIOLATION, 2 inconclusive/harness error. "
-              "Fix commits in /repo: 15fbc37 (normalize_slice), bfce058 (_bound_degree budget), 82ae11e (normalize_chunks negatives).",
+              "Fix commits in /repo: 15fbc37 (normalize_slice), bfce058 (_bound_degree budget), 82ae11e (normalize_chunks negatives), 5b1d580 (no-op rechunk lowering with balance=True).",
         not_applicable=na,
     )
     json.dump(m, open("MANIFEST.json", "w"), indent=1)
